@@ -401,13 +401,10 @@ fn order_demanded(v: &KV) -> bool {
         _ => false,
     })
 }
-fn bad32(b: u32) -> bool { (b >> 31) == 1 && !(f32::from_bits(b) < 0.0) }
-fn bad64(b: u64) -> bool { (b >> 63) == 1 && !(f64::from_bits(b) < 0.0) }
 /// recorded defect class of a value (0 = none); mirrors Model/KeyKnown.v kclass_of
+/// (classes 1 and 2 were repaired in /repo 22060f5; -0.0 and sign-bit NaNs are ordinary inputs now)
 fn known_class(vs: &[KV]) -> u32 {
     let any = |p: &dyn Fn(&KV) -> bool| vs.iter().any(|v| kany(v, p));
-    if any(&|s| matches!(s, KV::Vector(l) if l.iter().any(|b| bad32(*b)))) { return 1; }
-    if any(&|s| matches!(s, KV::Json(j) if jany(j, &|n| matches!(n, J::Num(b) if bad64(*b))))) { return 2; }
     if any(&|s| matches!(s, KV::Json(j) if jany(j, &|n| matches!(n, J::Obj(l) if !l.is_empty() && (l[0].0.is_empty() || l[0].0.as_bytes()[0] == 0))))) { return 3; }
     0
 }
@@ -490,9 +487,9 @@ impl G {
             4 => { let e = self.rng.below(256) as u32; let m = if self.rng.chance(1, 2) { self.rng.below(3) as u32 } else { (self.rng.next() as u32) & ((1 << 23) - 1) }; ((self.rng.below(2) as u32) << 31) | (e << 23) | m }
             _ => self.rng.next() as u32,
         };
-        if self.avoid_known && bad32(b) { b & 0x7FFF_FFFF } else { b }
+        b
     }
-    fn jnum(&mut self) -> u64 { let b = self.f64b(); if self.avoid_known && bad64(b) { b & !(1 << 63) } else { b } }
+    fn jnum(&mut self) -> u64 { self.f64b() }
     fn text(&mut self) -> String {
         let n = match self.rng.below(4) { 0 => 0, 1 => 1, _ => self.rng.below(7) as usize };
         (0..n).map(|_| if self.rng.chance(1, 5) { char::from_u32(self.rng.below(0xD800) as u32).unwrap_or('x') } else { *self.rng.pick(&CHARS) }).collect()
@@ -622,7 +619,7 @@ impl G {
     }
     fn jnear(&mut self, j: &J) -> J {
         match j {
-            J::Num(b) => { let d = self.rng.range(-2, 2); let nb = b.wrapping_add(d as u64); J::Num(if self.avoid_known && bad64(nb) { *b } else { nb }) }
+            J::Num(b) => { let d = self.rng.range(-2, 2); let nb = b.wrapping_add(d as u64); J::Num(nb) }
             J::Str(s) => if let KV::Text(t) = self.near(&KV::Text(s.clone()), 0) { J::Str(t) } else { J::Null },
             J::Arr(l) => {
                 let mut l = l.clone();
